@@ -341,6 +341,8 @@ class Tensor:
         Copies all attributes of a tensor to this tensor
         """
         self.__dict__.update(tensor.__dict__)
+        if self._grad is not None: # the copy accumulates into a gradient buffer of its own
+            self._grad = self._grad.copy()
         
     # *********************************
     # *********** Backprop ************
